@@ -53,12 +53,18 @@ def universe():
         (L('v'), W('x', 'int'), L('.'), W('y', 'int')),
         (L('a/'), W('x', 're', 'a+'), W('y', 're', 'b+'), W('z', 're', 'c+')),
         (L('a/'), W('x', 're', 'a+'), W('y', 're', 'b+'), W('z', 're', 'c+'), L('d')),
+        # a literal that starts with digits directly after a wildcard
+        (L('img/'), W('n', 're', '[a-z]+'), L('2x.png')), (L('b/'), W('s', 're', '[a-z-]+'), L('2024/i')), (L('dl/'), W('p', 'path'), L('0.tgz')),
+        (L('v/'), W('x'), L('/1')), (W('x', 'int'), L('0')),
+        # hand-written re filters whose text equals the mask of a built-in filter
+        (L('a/'), W('x', 're', r'-?\d+')), (L('a/'), W('x', 're', r'-?\d+(\.\d+)?')),
     ]
     return u
 
 
 def values_for(rule):
-    vals = list(rr.WILD_VALUES) + ['x/y/z', 'aab', 'abc', 'aabbcc', 'aaabcd', '640px', '12em', 'f.txt', 'd/f.txt.txt', 'endend', 'a/end/b']
+    vals = list(rr.WILD_VALUES) + ['x/y/z', 'aab', 'abc', 'aabbcc', 'aaabcd', '640px', '12em', 'f.txt', 'd/f.txt.txt', 'endend', 'a/end/b',
+                                   'logo', 'a-b', 'f0.tgz', 'x/y0.tgz', '70', '1']
     if any(a[0] == 'W' and a[2] in ('int', 'float') for a in rule):
         vals += NUM_VALUES
     return vals
@@ -75,9 +81,16 @@ def paths_for(rule):
     return sorted(ps)
 
 
+SAME_MASK = [((L('i/'), W('n', 'int')), (L('r/'), W('n', 're', r'-?\d+'))),
+             ((L('f/'), W('n', 'float')), (L('r/'), W('n', 're', r'-?\d+(\.\d+)?'))),
+             ((L('i/'), W('n', 'int')), (L('f/'), W('n', 'float'))),
+             ((L('p/'), W('p', 'path')), (L('r/'), W('p', 're', '.+$')))]
+
+
 def shards(tier, seed):
     u = universe()
     out = [('rule', i) for i in range(len(u))]
+    out += [('order', i) for i in range(len(SAME_MASK))]
     out.append(('extra', seed % 4))
     return out
 
@@ -176,7 +189,22 @@ def work(spec):
     res = core.new_result()
     sut.load()
     rmod = sut.sub('router.radirouter')
-    if kind == 'rule':
+    if kind == 'order':
+        # filters are built once per process: the order in which rules (of ANY router) were parsed must not matter
+        for pair in (SAME_MASK[i], SAME_MASK[i][::-1]):
+            sut.load(fresh=True)
+            rmod = sut.sub('router.radirouter')
+            for rule in pair:
+                rmod.Route(rr.default_text(rule))         # parse both rules first (fills the process-wide filter cache)
+            for rule in pair:
+                before = len(res['violations'])
+                check_rule(res, rmod, rule)
+                for v in res['violations'][before:]:
+                    v['case']['after_rules'] = [rr.default_text(r) for r in pair]
+                    v['sig'] = 'filter-order:' + (v['sig'] or '')
+        sut.load(fresh=True)
+        core.add_sample(res, {'same_mask_pair': [rr.default_text(r) for r in SAME_MASK[i]], 'orders': 2})
+    elif kind == 'rule':
         rule = universe()[i]
         check_rule(res, rmod, rule)
         core.add_sample(res, {'rule': rr.default_text(rule), 'flavours': list(rr.renderings(rule).values()), 'paths': paths_for(rule)[:6]})
@@ -190,10 +218,13 @@ def work(spec):
 
 
 def replay(case):
-    sut.load()
+    sut.load(fresh=bool(case.get('after_rules')))
     rmod = sut.sub('router.radirouter')
+    for t in case.get('after_rules') or []:
+        rmod.Route(t)
     rule = tuple(tuple(a) for a in case['ast'])
     r = roundtrip(rmod, rule, case['text'], case['path'])
     if r is None or r[0] == 'nomatch':
         return None
-    return f'rule {case["text"]!r} matches path {case["path"]!r}; {r[1]}'
+    pre = f'after the rules {case["after_rules"]} were parsed in this process: ' if case.get('after_rules') else ''
+    return f'{pre}rule {case["text"]!r} matches path {case["path"]!r}; {r[1]}'
